@@ -53,3 +53,9 @@ Example extracted_guard_satisfiable :
   NoDup (map fst [(s2l "a.c", true); (s2l "b.c", true); (s2l "c.c", true)]) /\
   forallb snd [(s2l "a.c", true); (s2l "b.c", true); (s2l "c.c", true)] = true.
 Proof. split; [cbn; repeat constructor; cbn; intuition discriminate | reflexivity]. Qed.
+
+(* with the repair the extracted objects are exactly the compiled ones, for every source
+   list (repeats, assembly) and every unity_size *)
+Theorem extracted_fixed_are_compiled srcs size o :
+  In o (extracted_objects_fixed srcs size) <-> In o (compiled_objects srcs size).
+Proof. unfold extracted_objects_fixed, compiled_objects. cbv zeta. rewrite !in_app_iff. tauto. Qed.
